@@ -1172,6 +1172,23 @@ def _split_tuple_assignments(tree):
                 out.append(ast.copy_location(ast.If(test=test, body=[app], orelse=[]), n))
             return [ast.fix_missing_locations(o) for o in out]
 
+        def visit_Compare(self, n):
+            n = self.generic_visit(n)
+            # a < b <= c  is  a < b and b <= c   (b read twice: only for operands whose evaluation has no effect - names, attributes,
+            # constants, subscripts of those)
+            if isinstance(n, ast.Compare) and len(n.ops) > 1:
+                def pure(e):
+                    return isinstance(e, (ast.Name, ast.Constant)) or (isinstance(e, ast.Attribute) and pure(e.value)) or \
+                        (isinstance(e, ast.Subscript) and pure(e.value) and pure(e.slice)) or (isinstance(e, ast.UnaryOp) and pure(e.operand))
+                if all(pure(c) for c in n.comparators[:-1]):
+                    import copy as _c
+                    parts, left = [], n.left
+                    for op, right in zip(n.ops, n.comparators):
+                        parts.append(ast.Compare(left=_c.deepcopy(left), ops=[op], comparators=[_c.deepcopy(right)]))
+                        left = right
+                    return ast.fix_missing_locations(ast.copy_location(ast.BoolOp(op=ast.And(), values=parts), n))
+            return n
+
         def visit_Expr(self, n):
             n = self.generic_visit(n)
             # setattr(obj, "name", v)  with a literal identifier  is  obj.name = v
